@@ -164,7 +164,26 @@ var countRe = regexp.MustCompile(`\{(\d+)(?:,(\d*))?\}`)
 // expansive reports whether the repetition counts of a text multiply to an automaton too large to build here: an edit
 // that turns {3} into {33} under two more repetitions legitimately costs gigabytes, which says nothing about the
 // property (the text is then not submitted; counted).
+var rangeRe = regexp.MustCompile(`(\\x[0-9A-F]{2,8}|[^\\])-(\\x[0-9A-F]{2,8}|[^\\\]])`)
+
+func endPoint(s string) int64 {
+	if strings.HasPrefix(s, `\x`) {
+		v, _ := strconv.ParseInt(s[2:], 16, 64)
+		return v
+	}
+	for _, r := range s {
+		return int64(r)
+	}
+	return 0
+}
+
 func expansive(s string) bool {
+	// a range is enumerated character by character: an edit that widens one to tens of thousands of code points
+	for _, m := range rangeRe.FindAllStringSubmatch(s, -1) {
+		if lo, hi := endPoint(m[1]), endPoint(m[2]); hi-lo > 3000 {
+			return true
+		}
+	}
 	product := 1
 	for _, m := range countRe.FindAllStringSubmatch(s, -1) {
 		n := 0
